@@ -59,7 +59,7 @@ def check(ctx, rep):
     rep.ob('capacity.refuse-at-15', 'a keystroke is appended only if fewer than ring_length-1 (15) are waiting', len(adds) == 1 and fl.knows(adds[0], full, False) and fl.knows(adds[0], 'cp_c', True),
            '', ctx.where(ap))
     tone = [c for c in own_nodes(ap) if isinstance(c, ast.Call) and norm(c.func) == 'self._queues.audio.put' and 'FULL_TONE' in norm(c)]
-    rep.ob('capacity.full-signal', 'a dropped keystroke sounds the buffer-full tone', len(tone) == 1 and fl.knows(tone[0], full, True), '', ctx.where(ap))
+    rep.ob('capacity.full-signal', 'a dropped keystroke sounds the buffer-full tone', len(tone) == 1 and fl.knows(fl.stmt_of(tone[0])._parent.body[0], full, True), '', ctx.where(ap))
     ins = [c for c in own_nodes(ap) if isinstance(c, ast.Call) and norm(c.func) in ('self._buffer.insert', 'self._buffer.appendleft')]
     rep.ob('fifo.append-at-tail', 'append never inserts before waiting keystrokes', not ins, '', ctx.where(ap))
     gc = ctx.fn(KB + ':KeyboardBuffer.getc')
